@@ -183,7 +183,7 @@ func cmdPubSub(args []string) {
 			}()
 		}
 		pwg.Wait()
-		// bounded time, counted in flush windows: three windows of the batch publisher (100 ms each)
+		// bounded time, counted in flush windows: nine windows of the batch publisher (100 ms each; three were enough on an idle machine)
 		if *stall {
 			// every send to the stalled consumer costs the publisher its 100 ms timeout
 			gotime.Sleep(gotime.Duration(900+110**npub*4) * gotime.Millisecond)
